@@ -40,7 +40,8 @@ def run(p, report, tier):
                 floor=2)
     check_incremental_history(p, report)
     report.rule("R13.6", "the sliding window owns the samples it was given: what is extended into X_train_ is a copy (rows "
-                "of the validated input are views of the caller's array)", floor=1)
+                "of the validated input are views of the caller's array); the same holds for the labels and weights, whose rows are "
+                "views as well when they are 2-d (multi-annotator estimators)", floor=3)
     report.rule("R13.7", "a stream strategy owns the samples of its history windows: what `update` (and the helpers it hands the "
                 "candidates to) appends / extends into a window attribute is a copy of the candidate rows - the rows of the "
                 "validated `candidates` are views of the caller's array, and a caller that re-uses its chunk buffer would "
@@ -132,7 +133,8 @@ def _rest(p, report, tier):
     xname = xpar[1] if len(xpar) > 1 and xpar[0] in ("fit_func", "fit_function") else (xpar[0] if xpar else "X")
     for n in ast.walk(add.node):
         if isinstance(n, ast.Call) and isinstance(n.func, ast.Attribute) and n.func.attr in ("extend", "append") \
-                and isinstance(n.func.value, ast.Attribute) and n.func.value.attr == "X_train_" and n.args:
+                and isinstance(n.func.value, ast.Attribute) and n.func.value.attr in ("X_train_", "y_train_", "sample_weight_train_") \
+                and n.args:
             a0 = n.args[0]
 
             def _is_copy(e):
